@@ -890,3 +890,182 @@ package otto
 //@   ensures operator == token.SLASH && isGoNumber(left) && isGoNumber(right) ==> result.kind == valueNumber && is(result.value, float64) && sameFloat(result.value.(float64), numOf(left) / numOf(right))
 //@   ensures operator == token.PLUS && isGoNumber(left) && isGoNumber(right) ==> result.kind == valueNumber && is(result.value, float64) && sameFloat(result.value.(float64), numOf(left) + numOf(right))
 //@   ensures operator == token.IN || operator == token.INSTANCEOF ==> right.kind == valueObject
+
+// Package-level state is written only by the package initialisers: nothing is shared
+// mutably between runtimes through globals (C20).
+//@ globals_readonly[C20]
+
+// ---------------------------------------------------------------------------
+// clone.go, otto.go: Copy() (C17, C20, C14, C02)
+// ---------------------------------------------------------------------------
+
+// The cloner's memo table: an object of the original is copied once; every later request
+// returns the same copy, and entries never change.
+// every object carries its class table (constructor invariant, assumed of the heap)
+//@ spec classOK(x *object) bool = x.objectClass != nil && x.objectClass.clone != nil
+//@ spec heapClassOK(c *cloner) bool = c != nil && c.obj != nil && (forall x *object :: x != nil ==> classOK(x)) && (forall k *object :: has(c.obj, k) ==> c.obj[k] != nil)
+
+// the memo tables of a cloner are installed once by runtime.clone (and cleared at its end)
+//@ stablefield[C17] cloner.obj writers=(*runtime).clone
+
+// Inductive hypothesis for the class-specific clone slot (objectClone is proved against it
+// below): it fills and returns the object it was given and only adds to the memo table.
+//@ slot objectClass.clone
+//@   ensures result == arg1
+//@   ensures forall x *object :: x != nil ==> classOK(x)
+//@   ensures forall k *object :: has(arg2.obj, k) ==> arg2.obj[k] != nil
+//@   ensures forall k *object :: old(has(arg2.obj, k)) ==> has(arg2.obj, k) && arg2.obj[k] == old(arg2.obj[k])
+//@   ensures arg2.obj == old(arg2.obj)
+
+//@ func (*cloner).object
+//@   props C17
+//@   requires heapClassOK(c) && in != nil
+//@   ensures heapClassOK(c)
+//@   ensures result != nil && has(c.obj, in) && c.obj[in] == result
+//@   ensures old(has(c.obj, in)) ==> result == old(c.obj[in])
+//@   ensures forall k *object :: old(has(c.obj, k)) ==> has(c.obj, k) && c.obj[k] == old(c.obj[k])
+
+// A property is copied with the same attributes; a data value is passed through the
+// cloner; of an accessor BOTH sides are cloned, each exactly when it is present.
+//@ func (*cloner).property
+//@   props C17 C20
+//@   requires heapClassOK(c) && (is(in.value, Value) || is(in.value, propertyGetSet))
+//@   requires is(in.value, Value) && is(in.value.(Value).value, *object) ==> in.value.(Value).value.(*object) != nil
+//@   ensures result.mode == in.mode
+//@   calls (*cloner).object(c, in.value.(propertyGetSet)[0]) as g when is(in.value, propertyGetSet) && in.value.(propertyGetSet)[0] != nil
+//@   calls (*cloner).object(c, in.value.(propertyGetSet)[1]) as s when is(in.value, propertyGetSet) && in.value.(propertyGetSet)[1] != nil
+//@   ensures is(in.value, propertyGetSet) ==> is(result.value, propertyGetSet)
+//@   ensures is(in.value, propertyGetSet) && in.value.(propertyGetSet)[0] != nil ==> result.value.(propertyGetSet)[0] == g
+//@   ensures is(in.value, propertyGetSet) && in.value.(propertyGetSet)[1] != nil ==> result.value.(propertyGetSet)[1] == s
+//@   ensures is(in.value, propertyGetSet) && in.value.(propertyGetSet)[0] == nil ==> result.value.(propertyGetSet)[0] == nil
+//@   ensures is(in.value, propertyGetSet) && in.value.(propertyGetSet)[1] == nil ==> result.value.(propertyGetSet)[1] == nil
+//@   ensures is(in.value, Value) ==> is(result.value, Value) && result.value.(Value).kind == in.value.(Value).kind
+
+// A value is copied unchanged unless it is an object reference, which goes through the memo.
+//@ func (*cloner).value
+//@   props C17
+//@   ensures heapClassOK(c)
+//@   requires heapClassOK(c) && (is(in.value, *object) ==> in.value.(*object) != nil)
+//@   ensures result.kind == in.kind
+//@   ensures !is(in.value, *object) ==> result == in
+//@   calls (*cloner).object(c, in.value.(*object)) as o when is(in.value, *object)
+//@   ensures is(in.value, *object) ==> is(result.value, *object) && result.value.(*object) == o
+
+// Argument lists (bound functions): a fresh array of the same length; primitives are
+// copied as they are.
+//@ func (*cloner).valueArray
+//@   props C17
+//@   requires heapClassOK(c) && (forall i int :: 0 <= i && i < len(in) && is(in[i].value, *object) ==> in[i].value.(*object) != nil)
+//@   stable in
+//@   invariant@1 heapClassOK(c) && len(out) == len(in) && !samearray(out, in) && (forall j int :: 0 <= j && j <= $i && j < len(in) && !is(in[j].value, *object) ==> out[j] == in[j])
+//@   ensures len(result) == len(in) && !samearray(result, in)
+//@   ensures forall j int :: 0 <= j && j < len(in) && !is(in[j].value, *object) ==> result[j] == in[j]
+
+// Copy yields a different Otto on a different runtime, without the interrupt channel of
+// the original (an interrupt queued for one must never reach the other).
+//@ func (*Otto).Copy
+//@   props C17 C20
+//@   requires o != nil && o.runtime != nil
+//@   ensures result != nil && result != o && result.runtime != nil && result.runtime != o.runtime
+//@   ensures result.Interrupt == nil
+//@   ensures result.runtime.otto == result
+
+// The copy of the runtime: limits and hooks are carried over, every well-known object of
+// the original is replaced by ITS OWN copy (position by position), the scope stack of the
+// copy is empty.
+//@ func (*runtime).clone
+//@   props C17 C20 C14 C02
+//@   nosafety
+//@   requires rt != nil
+//@   fieldcover runtime ignore=lck,labels,otto,eval,globalStash,global
+//@   fieldcover global
+//@   ensures result != nil && result != rt
+//@   ensures result.stackLimit == old(rt.stackLimit) && result.traceLimit == old(rt.traceLimit)
+//@   ensures result.debugger == old(rt.debugger) && result.random == old(rt.random)
+//@   ensures result.scope == nil
+//@   calls (*cloner).object(_, old(rt.globalObject)) as mGlobalObject
+//@   ensures result.globalObject == mGlobalObject
+//@   calls (*cloner).object(_, old(rt.global.Object)) as mObject
+//@   ensures result.global.Object == mObject
+//@   calls (*cloner).object(_, old(rt.global.Function)) as mFunction
+//@   ensures result.global.Function == mFunction
+//@   calls (*cloner).object(_, old(rt.global.Array)) as mArray
+//@   ensures result.global.Array == mArray
+//@   calls (*cloner).object(_, old(rt.global.String)) as mString
+//@   ensures result.global.String == mString
+//@   calls (*cloner).object(_, old(rt.global.Boolean)) as mBoolean
+//@   ensures result.global.Boolean == mBoolean
+//@   calls (*cloner).object(_, old(rt.global.Number)) as mNumber
+//@   ensures result.global.Number == mNumber
+//@   calls (*cloner).object(_, old(rt.global.Math)) as mMath
+//@   ensures result.global.Math == mMath
+//@   calls (*cloner).object(_, old(rt.global.Date)) as mDate
+//@   ensures result.global.Date == mDate
+//@   calls (*cloner).object(_, old(rt.global.RegExp)) as mRegExp
+//@   ensures result.global.RegExp == mRegExp
+//@   calls (*cloner).object(_, old(rt.global.Error)) as mError
+//@   ensures result.global.Error == mError
+//@   calls (*cloner).object(_, old(rt.global.EvalError)) as mEvalError
+//@   ensures result.global.EvalError == mEvalError
+//@   calls (*cloner).object(_, old(rt.global.TypeError)) as mTypeError
+//@   ensures result.global.TypeError == mTypeError
+//@   calls (*cloner).object(_, old(rt.global.RangeError)) as mRangeError
+//@   ensures result.global.RangeError == mRangeError
+//@   calls (*cloner).object(_, old(rt.global.ReferenceError)) as mReferenceError
+//@   ensures result.global.ReferenceError == mReferenceError
+//@   calls (*cloner).object(_, old(rt.global.SyntaxError)) as mSyntaxError
+//@   ensures result.global.SyntaxError == mSyntaxError
+//@   calls (*cloner).object(_, old(rt.global.URIError)) as mURIError
+//@   ensures result.global.URIError == mURIError
+//@   calls (*cloner).object(_, old(rt.global.JSON)) as mJSON
+//@   ensures result.global.JSON == mJSON
+//@   calls (*cloner).object(_, old(rt.global.ObjectPrototype)) as mObjectPrototype
+//@   ensures result.global.ObjectPrototype == mObjectPrototype
+//@   calls (*cloner).object(_, old(rt.global.FunctionPrototype)) as mFunctionPrototype
+//@   ensures result.global.FunctionPrototype == mFunctionPrototype
+//@   calls (*cloner).object(_, old(rt.global.ArrayPrototype)) as mArrayPrototype
+//@   ensures result.global.ArrayPrototype == mArrayPrototype
+//@   calls (*cloner).object(_, old(rt.global.StringPrototype)) as mStringPrototype
+//@   ensures result.global.StringPrototype == mStringPrototype
+//@   calls (*cloner).object(_, old(rt.global.BooleanPrototype)) as mBooleanPrototype
+//@   ensures result.global.BooleanPrototype == mBooleanPrototype
+//@   calls (*cloner).object(_, old(rt.global.NumberPrototype)) as mNumberPrototype
+//@   ensures result.global.NumberPrototype == mNumberPrototype
+//@   calls (*cloner).object(_, old(rt.global.DatePrototype)) as mDatePrototype
+//@   ensures result.global.DatePrototype == mDatePrototype
+//@   calls (*cloner).object(_, old(rt.global.RegExpPrototype)) as mRegExpPrototype
+//@   ensures result.global.RegExpPrototype == mRegExpPrototype
+//@   calls (*cloner).object(_, old(rt.global.ErrorPrototype)) as mErrorPrototype
+//@   ensures result.global.ErrorPrototype == mErrorPrototype
+//@   calls (*cloner).object(_, old(rt.global.EvalErrorPrototype)) as mEvalErrorPrototype
+//@   ensures result.global.EvalErrorPrototype == mEvalErrorPrototype
+//@   calls (*cloner).object(_, old(rt.global.TypeErrorPrototype)) as mTypeErrorPrototype
+//@   ensures result.global.TypeErrorPrototype == mTypeErrorPrototype
+//@   calls (*cloner).object(_, old(rt.global.RangeErrorPrototype)) as mRangeErrorPrototype
+//@   ensures result.global.RangeErrorPrototype == mRangeErrorPrototype
+//@   calls (*cloner).object(_, old(rt.global.ReferenceErrorPrototype)) as mReferenceErrorPrototype
+//@   ensures result.global.ReferenceErrorPrototype == mReferenceErrorPrototype
+//@   calls (*cloner).object(_, old(rt.global.SyntaxErrorPrototype)) as mSyntaxErrorPrototype
+//@   ensures result.global.SyntaxErrorPrototype == mSyntaxErrorPrototype
+//@   calls (*cloner).object(_, old(rt.global.URIErrorPrototype)) as mURIErrorPrototype
+//@   ensures result.global.URIErrorPrototype == mURIErrorPrototype
+
+// The copy of an ordinary object: same class, flags and class table; the runtime of the
+// copy; prototype through the memo; a FRESH property map and a FRESH property-order array
+// with the same names in the same order (sharing either would let the two runtimes see
+// each other's additions and deletions).
+//@ func objectClone
+//@   props C17 C14 C20
+//@   requires in != nil && out != nil && in != out && heapClassOK(clone) && clone.runtime != nil
+//@   requires in.prototype != nil ==> in.prototype != out
+//@   fieldcover object ignore=value
+//@   ensures result == out
+//@   ensures out.runtime == clone.runtime
+//@   ensures out.class == old(in.class) && out.extensible == old(in.extensible) && out.objectClass == old(in.objectClass)
+//@   ensures old(in.prototype) == nil ==> out.prototype == nil
+//@   ensures out.property != nil && out.property != old(in.property)
+//@   ensures len(out.propertyOrder) == old(len(in.propertyOrder))
+//@   ensures old(len(in.propertyOrder)) > 0 ==> !samearray(out.propertyOrder, old(in.propertyOrder))
+//@   ensures forall k *object :: old(has(clone.obj, k)) ==> has(clone.obj, k) && clone.obj[k] == old(clone.obj[k])
+//@   ensures forall x *object :: x != nil ==> classOK(x)
+//@   ensures forall k *object :: has(clone.obj, k) ==> clone.obj[k] != nil
